@@ -220,6 +220,41 @@ def check_one_rule_per_section(kind, header, blocks, view_fn):
                 O.fail('C17.%s.sections_not_one_to_one' % kind, {'kind': kind, 'text': '\n'.join(build(header, list(combo)))}, [b[0] for b in combo], names)
 
 
+# every section yields one rule with exactly the stated properties: the tags of a tags: line are its comma-separated parts, where a comma inside a
+# {expression} (in a call, a string literal, a list) or inside parentheses of a literal tag separates nothing
+STATED_TAGS = [
+    ('a, b', ['a', 'b']),
+    ('{extract(description, "REF (\\d+)")}, banking', ['{extract(description, "REF (\\d+)")}', 'banking']),
+    ('{lowercase(split(description, lowercase(" "), 0))}, z', ['{lowercase(split(description, lowercase(" "), 0))}', 'z']),
+    ('tax (us, state), plain', ['tax (us, state)', 'plain']),
+    ("kid's, mom's", ["kid's", "mom's"]),
+    ('{split(description, ")", 0)}, b', ['{split(description, ")", 0)}', 'b']),
+    ('{split(description, "(", 0)}, b', ['{split(description, "(", 0)}', 'b']),
+    ('{"x" if source == "a, b" else "y"}, c2', ['{"x" if source == "a, b" else "y"}', 'c2']),
+    ('{"a, b"}, d', ['{"a, b"}', 'd']),
+    ("{'}, {'}, e", ["{'}, {'}", 'e']),
+    ('first, {split(description, "\\"", 0)}, q', ['first', '{split(description, "\\"", 0)}', 'q']),
+    (' spaced ,  , {source} ,', ['spaced', '{source}']),
+    ('a), b, c', ['a)', 'b', 'c']),            # a stray closing parenthesis closes nothing
+    ('(open, b', ['(open, b']),                # an opening one keeps what follows together
+]
+
+
+def check_stated_tags():
+    for value, want in STATED_TAGS:
+        O.case(('stated_tags', value))
+        text = '[T]\nmatch: contains("X")\ncategory: C\ntags: %s\n\n[After]\nmatch: contains("Y")\ncategory: D\n' % value
+        w = {'kind': 'stated_tags', 'text': text}
+        try:
+            e = parse_merchants(text)
+        except Exception as ex:
+            O.fail('C17.rules.valid_tags_line_rejected', w, sorted(want), '%s: %s' % (type(ex).__name__, ex), 'parse_merchants(text)')
+            continue
+        got = sorted(e.rules[0].tags) if e.rules else None
+        if got != sorted(want) or [r.name for r in e.rules] != ['T', 'After']:
+            O.fail('C17.rules.tags_not_as_stated', w, sorted(want), got, 'parse_merchants(text).rules[0].tags')
+
+
 def check_byte_order_mark():
     """a rules / views / legacy CSV rules file saved with a UTF-8 byte order mark (Excel "CSV UTF-8", Notepad) reads like the same file without it"""
     tmp = tempfile.mkdtemp(prefix='c17bom-')
@@ -273,27 +308,32 @@ def check_unloadable_reported():
         path = os.path.join(cfg, 'merchants.rules')
         open(path, 'w').write('[A]\nmatch: contains("A")\ncategory: C\n\n[B]\nmatch: contains(\ncategory: D\n')
         config = {'_merchants_file': path, '_merchants_format': 'new', 'rule_mode': 'first_match'}
-        O.case(('unloadable',))
-        out, err = io.StringIO(), io.StringIO()
-        reported, rules = False, None
-        try:
-            with contextlib.redirect_stdout(out), contextlib.redirect_stderr(err):
-                rules = _check_merchant_migration(config, cfg, quiet=False, migrate=False)
-        except SystemExit:
-            reported = True
-        except Exception:
-            reported = True          # an exception reaching the command line is a report (ugly, but not silent)
-        text = out.getvalue() + err.getvalue()
-        if not reported and not any(k in text.lower() for k in ('error', 'invalid', 'line 6', 'could not', 'failed')):
-            O.fail('C17.unloadable_rules_file_read_as_empty', {'kind': 'unloadable', 'file': 'merchants.rules with a syntax error in rule 2'},
-                   'an error is reported', 'returned %d rules, output: %s' % (len(rules or []), text.strip()[:200]),
-                   '_check_merchant_migration -> get_all_rules')
-        mu.clear_engine_cache()
+        for quiet, migrate in ((False, False), (True, False), (True, True), (False, True)):       # --quiet silences progress lines, not the report
+            O.case(('unloadable', quiet, migrate))
+            out, err = io.StringIO(), io.StringIO()
+            reported, rules = False, None
+            try:
+                with contextlib.redirect_stdout(out), contextlib.redirect_stderr(err):
+                    rules = _check_merchant_migration(config, cfg, quiet=quiet, migrate=migrate)
+            except SystemExit:
+                reported = True
+            except Exception:
+                reported = True          # an exception reaching the command line is a report (ugly, but not silent)
+            text = out.getvalue() + err.getvalue()
+            if not reported and not any(k in text.lower() for k in ('error', 'invalid', 'line 6', 'could not', 'failed')):
+                O.fail('C17.unloadable_rules_file_read_as_empty', {'kind': 'unloadable', 'file': 'merchants.rules with a syntax error in rule 2', 'quiet': quiet, 'migrate': migrate},
+                       'an error is reported', 'returned %d rules, output: %s' % (len(rules or []), text.strip()[:200]),
+                       '_check_merchant_migration -> get_all_rules')
+            mu.clear_engine_cache()
     finally:
         shutil.rmtree(tmp, ignore_errors=True)
 
 
 def main():
+    if not O.witness or (O.witness or {}).get('kind') == 'stated_tags':
+        check_stated_tags()
+        if O.witness:
+            O.finish()
     if O.witness:
         w = O.witness
         if w.get('kind') == 'unloadable':
